@@ -94,7 +94,7 @@ STAGES["C14"].append(dict(name="window", pkg="ristretto", test="TestVf_C14_Windo
                           quick=(1, 1), thorough=(1, 1), fixed_cases=True, crash_is_violation=True))
 for _pid in ["C03", "C04", "C08", "C13", "C17"]:
     STAGES[_pid].append(dict(name="long", pkg="ristretto", test="TestVf_%s_Long" % _pid, replay_test="TestVfReplay_Long",
-                             quick=(6, 1), thorough=(40, 4), crash_is_violation=True))
+                             quick=(3, 1), thorough=(24, 4), crash_is_violation=True))
 for _pid in ["C14", "C07"]:
     STAGES[_pid].append(dict(name="sweepstress", pkg="ristretto", test="TestVf_%s_SweepStress" % _pid, replay_test="TestVfReplay_SweepStress",
                              quick=(16, 1), thorough=(200, 4), crash_is_violation=True, exclusive=True))
